@@ -897,7 +897,8 @@ func ParentsTraces(n, nres int, with string) ptrace.Traces {
 	made := 0
 	for r := 0; r < nres && made < n; r++ {
 		rs := td.ResourceSpans().AppendEmpty()
-		if strings.Contains(with, "resattr") {
+		// "resattr1": every resource but the first carries an attribute (65,535 attribute-bearing resources + one bare = the full id range)
+		if strings.Contains(with, "resattr") && !(strings.Contains(with, "resattr1") && r == 0) {
 			rs.Resource().Attributes().PutInt("r", int64(r))
 		}
 		ss := rs.ScopeSpans().AppendEmpty()
@@ -937,7 +938,8 @@ func ParentsLogs(n, nres int, with string) plog.Logs {
 	made := 0
 	for r := 0; r < nres && made < n; r++ {
 		rl := ld.ResourceLogs().AppendEmpty()
-		if strings.Contains(with, "resattr") {
+		// "resattr1": every resource but the first carries an attribute (65,535 attribute-bearing resources + one bare = the full id range)
+		if strings.Contains(with, "resattr") && !(strings.Contains(with, "resattr1") && r == 0) {
 			rl.Resource().Attributes().PutInt("r", int64(r))
 		}
 		sl := rl.ScopeLogs().AppendEmpty()
@@ -958,7 +960,8 @@ func ParentsMetrics(n, nres int, with string) pmetric.Metrics {
 	made := 0
 	for r := 0; r < nres && made < n; r++ {
 		rm := md.ResourceMetrics().AppendEmpty()
-		if strings.Contains(with, "resattr") {
+		// "resattr1": every resource but the first carries an attribute (65,535 attribute-bearing resources + one bare = the full id range)
+		if strings.Contains(with, "resattr") && !(strings.Contains(with, "resattr1") && r == 0) {
 			rm.Resource().Attributes().PutInt("r", int64(r))
 		}
 		sm := rm.ScopeMetrics().AppendEmpty()
